@@ -264,6 +264,35 @@ func memoDependencies(r *an.Run, rule string) {
 			}
 			sc := an.StaticCallee(c)
 			okCall := (sc != nil && inGroup[sc]) || an.IsCallTo(c, "("+dataPath+".Data).Keys")
+			// slices.Contains / slices.ContainsFunc are complete linear searches (equality with an element,
+			// resp. a predicate that is itself such a search): each stands for one of the loops
+			if an.IsCallTo(c, "slices.Contains") {
+				okCall = true
+				nLoops++
+			}
+			if an.IsCallTo(c, "slices.ContainsFunc") && len(c.Common().Args) == 2 {
+				var pred *ssa.Function
+				switch v := c.Common().Args[1].(type) {
+				case *ssa.Function:
+					pred = v
+				case *ssa.MakeClosure:
+					pred, _ = v.Fn.(*ssa.Function)
+				}
+				if pred != nil && inGroup[pred] {
+					rets := an.Returns(pred)
+					whole := len(rets) > 0
+					for _, ret := range rets {
+						rc, isCall := ret.Results[0].(*ssa.Call)
+						if !isCall || !an.IsCallTo(rc, "slices.Contains", "slices.ContainsFunc") {
+							whole = false
+						}
+					}
+					if whole {
+						okCall = true
+						nLoops++
+					}
+				}
+			}
 			r.Check(okCall, short(g)+"|call|"+an.TrimModule(an.CalleeName(c)), c.Pos(), "bindsAny compares names by linear search over the recorded lists (no sorted search, no index: the lists are in order of appearance) — calls %s", an.TrimModule(an.CalleeName(c)))
 		}
 		for _, l := range an.Loops(g) {
@@ -327,6 +356,13 @@ func memoDependencies(r *an.Run, rule string) {
 						}
 					}
 				}
+			}
+		}
+	}
+	for _, g := range bgroup {
+		for _, c := range an.CallsTo(g, "slices.Contains") {
+			if an.ShortType(c.Common().Args[0].Type()) == "[]string" {
+				eq = true
 			}
 		}
 	}
